@@ -3,6 +3,7 @@ import GrVerif.Model.Loader
 import GrVerif.Model.PassLoad
 import GrVerif.Model.ClassMap
 import GrVerif.Model.SilfLoad
+import GrVerif.Model.CodeLoad
 namespace Driver.Loader
 open GrVerif.Loader Driver
 
@@ -137,9 +138,28 @@ def stepSilfTable (ws : List String) : String :=
     | _, _, _, _ => "bad-op"
   | _ => "bad-op"
 
+/-- `code <constraint> <passtype> <pre_context> <rule_length> <classes> <gattrs> <feats> <user> <hex>` : the code loader -/
+def stepCode (ws : List String) : String :=
+  match ws.map String.toNat?, ws.getLast? with
+  | [some c, some pt, some pre, some rl, some cl, some ga, some fe, some us, _], some h =>
+    match parseHexUnits 2 h with
+    | none => "bad-op"
+    | some b =>
+      if b.isEmpty then "bad-op" else
+      match GrVerif.CodeLoad.load { preContext := pre, ruleLength := rl, classes := cl, glyfAttrs := ga, features := fe, numUser := us } (c ≠ 0) pt b.toList with
+      | .error _ => "fault"
+      | .ok (.error s) => s!"S{s}"
+      | .ok (.ok none) => "empty"
+      | .ok (.ok (some p)) =>
+        let ops := (p.instrs.map fun i => if i.1 = 27 then 25 else i.1) ++ [49]
+        let data := p.instrs.flatMap fun i => i.2
+        s!"ok ic={p.instrs.length} ds={p.dataSize} mr={p.maxRef} mod={if p.modify then 1 else 0} del={if p.delete then 1 else 0} I:{String.intercalate "," (ops.map toString)} D:{digest data}"
+  | _, _ => "bad-op"
+
 def step (line : String) : String :=
   match words line with
   | "classmap" :: rest => stepClassMap rest
+  | "code" :: rest => stepCode rest
   | "silf" :: rest => stepSilf rest
   | "silftable" :: rest => stepSilfTable rest
   | "sfnt" :: rest => stepSfnt rest
